@@ -25,13 +25,13 @@ impl From<&serde_json::Value> for JsonShape {
             serde_json::Value::Number(_) => Self::Number { optional: false },
             serde_json::Value::String(_) => Self::String { optional: false },
             serde_json::Value::Array(values) => {
-                if values.len() > 1
-                    && values
+                let shapes: Vec<Self> = values.iter().map(Self::from).collect();
+                if shapes.len() > 1
+                    && shapes
                         .iter()
-                        .map(Self::from)
                         .all(|value| matches!(value, Self::Object { .. }))
                 {
-                    let mut iter = values.iter().map(Self::from);
+                    let mut iter = shapes.into_iter();
                     let Some(Self::Object { content, .. }) = iter.next() else {
                         unreachable!("Guaranteed to be Object by all");
                     };
@@ -71,24 +71,14 @@ impl From<&serde_json::Value> for JsonShape {
                         }),
                         optional: false,
                     }
-                } else if !values.is_empty()
-                    && values
-                        .windows(2)
-                        .map(|val| {
-                            (
-                                Self::from(val.first().unwrap()),
-                                Self::from(val.get(1).unwrap()),
-                            )
-                        })
-                        .all(|val| val.0 == val.1)
-                {
+                } else if !shapes.is_empty() && shapes.windows(2).all(|val| val[0] == val[1]) {
                     Self::Array {
-                        r#type: Box::new(Self::from(values[0].clone())),
+                        r#type: Box::new(shapes[0].clone()),
                         optional: false,
                     }
-                } else if values.len() > 1 {
+                } else if shapes.len() > 1 {
                     Self::Tuple {
-                        elements: values.iter().map(Self::from).collect(),
+                        elements: shapes,
                         optional: false,
                     }
                 } else {
